@@ -69,8 +69,22 @@ func VerifC07_ReadsDoNotWait() {
 		w.refresh(false, false) // cross the update-map / main-map layouts
 		verif_Assume(w.visible["P"])
 	}
+	negative := verif_Bool("negativeEntryCached")
+	if negative {
+		// an unknown provider was looked up before and is remembered as absent
+		for _, s := range w.srcs {
+			s.fail = false
+		}
+		_, nerr := w.pc.Get(context.Background(), "Q")
+		verif_Assume(nerr == nil)
+	}
 	// a refresh or miss-fetch is in progress: the one-slot write lock is taken
 	w.pc.writeLock <- struct{}{}
+	if negative {
+		qb := w.fetches()
+		q, qerr := w.pc.Get(context.Background(), "Q")
+		verif_Assert(qerr == nil && q == nil && w.fetches() == qb, "a provider remembered as absent is answered from the cache, without waiting for the writer")
+	}
 	if verif_Bool("refreshIntervalElapsed") {
 		// the read that notices the elapsed interval starts the automatic refresh
 		// but does not wait for it either
